@@ -74,15 +74,22 @@ def handleInv1 (ins outs : List J) : Verdict :=
       verdictOf "nt builtin udist" [("inv-udist", acc.any (fun k => closeQ g ((k : Rat) / 2)), s!"y={ratStr y} go={g.str} acceptable 2U={toString acc}")]
     | _, _, _, _, _ => .badOp "inv ud: parse"
   | [.atom "cont", _nameJ, yJ], [gJ, cAtJ, cBelowJ] =>
-    -- continuous built-in without own quantile (TDist): y must lie between the code's own CDF just below x and at x
+    -- continuous built-in (TDist through the generic search, NormalDist through its own method): y must lie between
+    -- the code's own CDF at x(1 − 1e-9) and at x(1 + 1e-9), relative to y's own size (the CDF is C05's subject)
     match yJ.rat?, gJ.flt?, cAtJ.rat?, cBelowJ.rat? with
     | some y, some (.fin _), some cAt, some cBelow =>
-      verdictOf "nt builtin continuous" [("inv-continuous", cBelow - rtol ≤ y && y ≤ cAt + rtol, s!"y={ratStr y} cdf(x-)={ratStr cBelow} cdf(x)={ratStr cAt}")]
+      let slack := y / 1000000 + 1 / 1000000000000
+      verdictOf "nt builtin continuous" [("inv-continuous", decide (cBelow ≤ y + slack) && decide (y ≤ cAt + slack),
+        s!"y={ratStr y} cdf(x-dx)={ratStr cBelow} cdf(x+dx)={ratStr cAt}")]
     | _, _, _, _ => .badOp "inv cont: parse"
   | _, _ => .badOp "inv: arity"
 
 /-- several y through one closure: every answer is judged like a single query -/
 def handleInv (ins outs : List J) : Verdict :=
+  -- `pwmut pw1 pw2 ys`: judged as `pw pw2 ys` (the object held pw2 when the queries were made)
+  let ins : List J := match ins with
+    | J.atom "pwmut" :: _ :: rest => J.atom "pw" :: rest
+    | _ => ins
   match ins.getLast?, outs with
   | some (.arr ys), [.arr xs] =>
     if ys.length != xs.length then .badOp "inv: history length" else
